@@ -1,11 +1,14 @@
 #!/bin/sh
-# Builds the framework from files on disk only (offline): Constants.v, the Coq development,
-# the harness binaries.
-set -e
+# Builds the framework from files on disk only (offline): Constants.v (and the other generated Coq
+# files), the Coq development, the harness binaries.  Every check rebuilds what it needs itself
+# (incrementally), so a failure here is reported but does not stop the remaining steps.
 cd "$(dirname "$0")"
 export CARGO_NET_OFFLINE=true
-python3 tools/constants.py || true
-./coq/build.sh
+python3 tools/constants.py || echo "setup: constants.py failed"
+[ -f tools/locks_extract.py ] && { python3 tools/locks_extract.py || echo "setup: locks_extract.py failed"; }
+./coq/build.sh -k || echo "setup: Coq build incomplete (each check rebuilds its own targets)"
 [ -f harness/Cargo.lock ] || cp /repo/Cargo.lock harness/Cargo.lock
 cd harness
-RUSTFLAGS="--cfg indicatif_verif" CARGO_TARGET_DIR=../.cache/target cargo build --offline --bins
+RUSTFLAGS="--cfg indicatif_verif" CARGO_TARGET_DIR=../.cache/target cargo build --offline --bins --keep-going 2>&1 | tail -3 \
+  || RUSTFLAGS="--cfg indicatif_verif" CARGO_TARGET_DIR=../.cache/target cargo build --offline --bins 2>&1 | tail -3
+exit 0
